@@ -381,10 +381,11 @@ class TreeSim(taps.Sim):
             except ValueError:
                 self.ill_ok = True
             raise Stop("ill_fi_child")
-        root.setup(data, **kw)
+        self.strats = trees.strategies(self.plan["tree"])
+        self.guarded(lambda: root.setup(data, **kw), "setup")
         if self.cfg["capital"]:
-            root.adjust(self.cfg["capital"])
-        root.update(self.dates[0])
+            self.guarded(lambda: root.adjust(self.cfg["capital"]), "initial capital")
+        self.guarded(lambda: root.update(self.dates[0]), "first update")
         self.ti = 0  # position in self.dates
         self.strats = trees.strategies(self.plan["tree"])
         self.observe()
@@ -795,8 +796,6 @@ class TreeSim(taps.Sim):
             node.adjust(amt, update=o["upd"], flow=o["flow"])
             done = True
         elif kind == "flatten":
-            if node.fixed_income and any(hasattr(c, "capital") for c in node.children.values()):
-                return  # see DESIGN: FI flatten over sub-strategies (AttributeError) handled by C10 profile
             for c in node.children.values():
                 if not hasattr(c, "capital") and not isz(c.position) and not self.tradable(c.name):
                     return
@@ -818,8 +817,6 @@ class TreeSim(taps.Sim):
                     return
                 c = node.children[cname]
                 if is_strat:
-                    if node.fixed_income:
-                        return
                     if not self.subtree_tradable(c):
                         return
                 elif not isz(c.position) and not self.tradable(cname):
